@@ -130,6 +130,37 @@ def keyInsert (k : Bytes) : List Bytes → List Bytes
   | [] => [k]
   | h :: t => if keyLt k h then k :: h :: t else if k = h then h :: t else h :: keyInsert k t
 
+/-! ## a registry listed whole (`Client.listRoots`: `slices.Collect(c.roots.all())`, then "avoid JSON null")
+
+`featureSet.all` yields the features in key order; `slices.Collect` of a sequence that yields nothing
+is the NIL slice — whatever happened to the set before (never touched, or filled and emptied again).
+The state of a `featureSet` is its key set: `add` inserts, `remove` deletes the named keys that are
+there; nothing else of the history survives. -/
+
+/-- an `add(uids…)` / `remove(uids…)` call on a feature set -/
+inductive RegOp where
+  | add (uids : List Bytes)
+  | rm (uids : List Bytes)
+deriving Repr, Inhabited
+
+def RegOp.apply (keys : List Bytes) : RegOp → List Bytes
+  | .add uids => uids.foldl (fun l u => keyInsert u l) keys
+  | .rm uids => keys.filter (fun u => !uids.contains u)
+
+/-- the registry after a history of calls, from the empty set of `newFeatureSet` -/
+def regAfter (h : List RegOp) : List Bytes := h.foldl RegOp.apply []
+
+/-- the result of listing the whole registry: the collected slice is nil iff there is no key -/
+def listAll (k : RKind) (item : Bytes → JVal) (keys : List Bytes) : ROut :=
+  sdkResultList k (if keys = [] then .nil else .items (keys.map item))
+
+/-- registries the harness fills and empties: the server's four paged ones and the client's roots -/
+def RKind.isListed (k : RKind) : Bool := k.isPaged || k == .listRoots
+
+/-- a list request against a registry: page by page (server features) or whole (roots; no cursor) -/
+def listReg (k : RKind) (item : Bytes → JVal) (keys : List Bytes) (pageSize : Nat) (c : Cursor) : ROut × Option Bytes :=
+  if k.isPaged then listPage k item keys pageSize c else (listAll k item keys, none)
+
 /-! ## `tools/call` through a raw `ToolHandler` (`Server.AddTool`, `Server.callTool`)
 
 The low-level handler's result goes out as it is ("without any validation of the output"), except
